@@ -103,8 +103,30 @@ public:
             s[QStringLiteral("q.features")] = QStringLiteral("auth_before_tls");   // offers authentication next to a required starttls
         }
         k[QStringLiteral("mute")] = r.chance(0.25);   // fully scripted server: only the ops below speak
+        // no explicit host: SRV lookup (simulated, no records) and the built-in list "direct TLS 5223, then TCP 5222";
+        // a socket error before the session makes the client fail over to the next address
+        const bool dns = r.chance(0.2);
+        if (dns) {
+            k[QStringLiteral("dnsLookup")] = 1;
+            k[QStringLiteral("dnsNotFound")] = r.chance(0.5);
+        }
         p.ops.append(mkop(QStringLiteral("connect")));
         p.ops.append(mkop(QStringLiteral("connok")));
+        if (dns && r.chance(0.6)) {
+            // biased scenario: the first address gets as far as an authentication exchange in flight (or k deliveries),
+            // the link breaks, and the next address is a plain TCP endpoint that only says what the ops make it say
+            p.ops.append(mkop(QStringLiteral("until"), { r.chance(0.7) ? 4 : 3, r.range(0, 6) }, {}, (quint32)r.next()));
+            p.ops.append(mkop(QStringLiteral("prof"), {}, { QStringLiteral("mute"), QStringLiteral("1") }, (quint32)r.next()));
+            p.ops.append(mkop(QStringLiteral("cut"), {}, {}, (quint32)r.next()));
+            p.ops.append(mkop(QStringLiteral("connok"), {}, {}, (quint32)r.next()));
+            p.ops.append(mkop(QStringLiteral("dl"), { 0 }, {}, (quint32)r.next()));
+            const int nInj = (int)r.range(1, 3);
+            for (int i = 0; i < nInj; ++i) {
+                static const int cont[] = { 11, 12, 9, 10, 13, 19, 2, 4 };
+                p.ops.append(mkop(QStringLiteral("inj"), { cont[r.uniform(8)] }, {}, (quint32)r.next()));
+                p.ops.append(mkop(QStringLiteral("pump"), {}, {}, (quint32)r.next()));
+            }
+        }
         if (r.chance(0.3)) {
             // biased scenario: let the first connection get far (k deliveries, or all the way), then the server redirects
             // (or the link drops) and the next connection meets a server that is configured differently
@@ -179,6 +201,7 @@ public:
             const QByteArray token = plan.sknob(QStringLiteral("fastToken")).toUtf8();
             QString lastClientIqId;
             int clientElementsAfterHeader = 0;
+            int authElementsWritten = 0;   // on the current connection
             int serverElementsBeforeTls = 0;
             QMap<SimLink *, bool> negativeOutcome;     // link -> an explicit "no TLS possible" outcome was delivered
             QMap<SimLink *, int> connectedOn;
@@ -214,6 +237,7 @@ public:
             };
 
             w.onNewLink = [&](SimLink *l) {
+                authElementsWritten = 0;
                 l->onWrite = [&, l](int from, const QByteArray &d) {
                     if (from == 1) {
                         if (!l->encrypted) {
@@ -227,6 +251,9 @@ public:
                     }
                     if (!d.contains("<stream:stream")) {
                         ++clientElementsAfterHeader;
+                    }
+                    if (d.startsWith("<auth ") || d.startsWith("<authenticate ") || d.contains("jabber:iq:auth")) {
+                        ++authElementsWritten;
                     }
                     if (!required || l->encrypted) {
                         return;
@@ -318,7 +345,7 @@ public:
                     int extra = (int)op.arg(1);
                     for (int guard = 0; guard < 80; ++guard) {
                         const bool reached = (milestone == 0 && w.link() && w.link()->encrypted) || (milestone == 1 && w.client->isAuthenticated()) ||
-                            (milestone == 2 && w.client->isConnected());
+                            (milestone == 2 && w.client->isConnected()) || (milestone == 4 && authElementsWritten > 0);
                         if (reached || doneLinks.contains(w.link())) {
                             break;
                         }
